@@ -56,7 +56,9 @@ fn mark_tail_calls(
     let span = tail.span();
     let ctxobj = tail.ctxobj();
     let tail_ident = tail.car()?;
-    let tail_name_str = tail_ident.as_symbol()?;
+    let Ok(tail_name_str) = tail_ident.as_symbol() else {
+        return Ok(body);
+    };
     let new_tail = if tail_ident.eq(&name) {
         let ret_tail = TulispObject::nil().append(tail.cdr()?)?.to_owned();
         list!(,ctx.intern("list")
